@@ -87,24 +87,28 @@ UdpMux(cfg) == cfg.mux \in {"udp", "both"}
 TcpMux(cfg) == cfg.mux \in {"tcp", "both"}
 En(cfg, tr, a) == NetName(tr, a.fam) \in NetsOf(cfg)
 
+\* the agent's own sockets compete for the ports of the range: with a single port and reflexive gathering enabled the
+\* host gatherer may find its port taken ("has a listener" fails), so nothing is required then
+NoUdpListener(cfg) == cfg.ports = "exhausted" \/ (cfg.ports = "single" /\ "srflx" \in TypesOf(cfg))
 \* host candidates that must be published: <<ip, transport>>
 MustHost(cfg, T) ==
   IF "host" \notin TypesOf(cfg) THEN {}
   ELSE (IF UdpMux(cfg) THEN {<<a.ip, "udp">> : a \in {b \in Accepted(cfg, T) \cap MuxAddrs(T) : En(cfg, "udp", b)}}
-        ELSE IF cfg.ports = "exhausted" THEN {}
+        ELSE IF NoUdpListener(cfg) THEN {}
         ELSE {<<a.ip, "udp">> : a \in {b \in Accepted(cfg, T) : En(cfg, "udp", b)}})
        \cup (IF TcpMux(cfg) THEN {<<a.ip, "tcp">> : a \in {b \in Accepted(cfg, T) : En(cfg, "tcp", b)}} ELSE {})
-\* host candidates that may be published
+\* addresses a published host candidate may sit on (its network type is judged separately)
 MayHost(cfg, T) ==
   IF "host" \notin TypesOf(cfg) THEN {}
-  ELSE (IF UdpMux(cfg) THEN {<<a.ip, "udp">> : a \in {b \in MuxAddrs(T) : En(cfg, "udp", b)}}
+  ELSE (IF UdpMux(cfg) THEN {<<a.ip, "udp">> : a \in MuxAddrs(T)}
         ELSE IF cfg.ports = "exhausted" THEN {}
-        ELSE {<<a.ip, "udp">> : a \in {b \in AcceptedMay(cfg, T) : En(cfg, "udp", b)}})
-       \cup (IF TcpMux(cfg) THEN {<<a.ip, "tcp">> : a \in {b \in AllAddrs(T) : En(cfg, "tcp", b) /\ b.cls \notin Excluded}} ELSE {})
-\* bases a server-reflexive candidate (own socket) may sit on; "*" is the wildcard address
+        ELSE {<<a.ip, "udp">> : a \in AcceptedMay(cfg, T)})
+       \cup (IF TcpMux(cfg) THEN {<<a.ip, "tcp">> : a \in {b \in AllAddrs(T) : b.cls \notin Excluded \/ (b.cls = "linklocal" /\ cfg.mdns = "gather")}} ELSE {})
+\* bases a server-reflexive candidate (own socket) may sit on: an address of an accepted interface that passes the IP filter
+\* and the loopback setting; "*" is the wildcard address, used when no filter is configured
 MaySrflxBase(cfg, T) ==
   IF "srflx" \notin TypesOf(cfg) \/ cfg.ports = "exhausted" THEN {}
-  ELSE {a.ip : a \in {b \in Accepted(cfg, T) : En(cfg, "udp", b)}}
+  ELSE {a.ip : a \in {b \in AddrsOn(cfg, T) : (b.cls # "loopback" \/ cfg.loopback) /\ IpFilterOK(cfg, b)}}
        \cup (IF cfg.ifilter = "none" /\ cfg.ipfilter = "none" THEN {"*"} ELSE {})
 PortOK(cfg, p) == cfg.ports = "none" \/ (p >= PortMin /\ p <= PortMaxOf(cfg.ports))
 ClassOf(T, ip) == IF \E a \in AllAddrs(T) : a.ip = ip THEN (CHOOSE a \in AllAddrs(T) : a.ip = ip).cls ELSE "unknown"
@@ -117,6 +121,6 @@ OracleLaws(cfg, T) ==
   /\ \A x \in MustHost(cfg, T) : ClassOf(T, x[1]) \notin Excluded
   /\ \A x \in MustHost(cfg, T) : ClassOf(T, x[1]) = "loopback" => cfg.loopback
   /\ \A x \in MustHost(cfg, T) : \E i \in Rng(T) : i.up /\ \E a \in Rng(i.addrs) : a.ip = x[1] /\ NetName(x[2], a.fam) \in NetsOf(cfg)
-  /\ (Len(cfg.nets) = 0 /\ Len(cfg.types) = 0 /\ cfg.ports # "exhausted" /\ ~UdpMux(cfg)) =>
+  /\ (Len(cfg.nets) = 0 /\ ~NoUdpListener(cfg) /\ ~UdpMux(cfg) /\ "host" \in TypesOf(cfg)) =>
         \A a \in Accepted(cfg, T) : <<a.ip, "udp">> \in MustHost(cfg, T)     \* the default configuration gathers every eligible address
 ====
